@@ -6,7 +6,7 @@ import pathlib
 ROOT = pathlib.Path(__file__).resolve().parent.parent / "seeded"
 print("| seed | property | change (as described by its author) | needs | checks run against it |")
 print("|---|---|---|---|---|")
-for d in sorted(ROOT.iterdir()):
+for d in sorted(x for x in ROOT.iterdir() if (x / "meta.json").exists()):
     m = json.loads((d / "meta.json").read_text())
     ver = m.get("verification", {})
     checks = "; ".join(f"{c}: {v['verdict']} ({v['tier']}, {v['seconds']} s)" for c, v in sorted(ver.get("checks", {}).items()))
